@@ -84,6 +84,11 @@ impl CodeCache {
     (blocks, self.write_cursor)
   }
 
+  /// Tell the cache which ROM bank is mapped at 0x4000-0x7fff
+  pub fn set_rom_bank(&mut self, bank: usize) {
+    self.code_blocks.set_rom_bank(bank as u16);
+  }
+
   pub fn get_memory_start_address(&self) -> usize {
     self.exec_memory.get_memory_area().as_ptr() as *const () as usize
   }
